@@ -75,7 +75,11 @@ def assign_registers(data: CodeData, code: list[IC10Instruction]):
         if fname == "":
             continue
         for node in func.sym_data.nodes_reading:
-            scope = get_scope_name(node)
+            if isinstance(node, nodes.Attribute):
+                # <module>.<function>(...): the enclosing function is added below
+                scope = node.root().name
+            else:
+                scope = get_scope_name(node)
             scopes = [scope] if scope else []
             if isinstance(node.scope(), nodes.FunctionDef):
                 scopes.append(node.scope().name)
